@@ -390,6 +390,11 @@ def x_Return(self, s, st):
 
 
 def x_Raise(self, s, st):
+    fr = self.frame
+    if fr is not None and fr.contract is not None and getattr(fr.contract, "no_own_raise", False) and \
+            not getattr(self, "_inline_stack", []) and s.exc is not None and not self.dry:
+        # this function promises to raise nothing of its own: the statement must be unreachable
+        self.oblige(st, False, "X", "own-raise-unreachable", s)
     if s.exc is None:
         cur = st.env.get("$current_exc")
         if cur is None:
